@@ -4,16 +4,20 @@ Ties (every run, against the beartype of $VERIF_REPO):
   tables     the class hierarchy the translator extracted from the SOURCE TEXT equals the run-time classes of
              beartype.roar._roarexc / _roarwarn (names, bases, exported) and the Lean `Table.under` / `Table.allowed` equal
              `issubclass` on them                                                               -> corr_diffs
-  reraise    real `reraise_exception_placeholder` vs Lean `reraise` (class, identity, message)  -> corr_diffs
+  reraise    real `reraise_exception_placeholder` vs Lean `reraise` (class, identity, message)  -> failures / corr_diffs
   cached     lock-step histories through a real `@callable_cached` function vs `cachedRun`      -> corr_diffs
-             (+ oracle: an unhashable argument never yields the TypeError of hashing)           -> failures
+             (+ oracle: the caller sees what the function answers, never the TypeError of hashing) -> failures
   classify   primitive tests on the real object -> `HintDescr` -> Lean `classify` vs the real `die_unless_hint` /
              `is_hint`, and vs the class the public checkers raise for root non-hints           -> corr_diffs
   hints      THE ORACLE: a generator of malformed hints (harness/impl/c11_hints.py) drives @beartype (parameter and return:
-             decoration and calls), is_bearable, die_if_unbearable, TypeHint, is_subhint in forked children of a pristine
-             parent; every escaping exception must be a public beartype.roar class of the family `Entry.allowedRoots`
-             documents (evaluated by the Lean model on the extracted tables) or — for user code the harness injected — the
-             very object that user code raised; every warning a public BeartypeWarning subclass  -> failures
+             decoration and calls), is_bearable, die_if_unbearable, TypeHint, is_subhint. Hints run in batches of six per
+             forked child of a PRISTINE parent (every beartype module imported, no hint but a private warm-up class ever
+             processed): beartype memoises hints, reducers and raised exceptions globally, so a batch is a small history.
+             Every escaping exception must be a public beartype.roar class of the family `Entry.allowedRoots` documents
+             (evaluated by the Lean model on the extracted tables) or — for user code the harness injected — the very object
+             that user code raised; every warning a public BeartypeWarning subclass. A failing hint is re-run ALONE in a fresh
+             child (if it only fails after its predecessors, with the minimal prefix), shrunk there, and reported under
+             `C11:<entry point>:<escaping class>:<abstract shape of the shrunk hint>`            -> failures
   user       scripted user exceptions in the wrapped body, in `Is[...]` validators and in `__instancecheck__` hooks (also
              raised while the violation finder re-runs them) vs Lean `wrapperCall` / `testerCall` / `raiserCall`; must be
              the same object                                                                    -> failures / corr_diffs
@@ -38,6 +42,7 @@ STRICT_SOURCES = ('validator', 'hook.__instancecheck__', 'body')
 STRICT_ENTRIES = ('call', 'is_bearable', 'die_if_unbearable')
 PLACEHOLDER = '$%ROOT_PITH_LABEL/~'
 SHRINK_BUDGET_S = 75
+MAX_NEW_KEYS = 25
 
 
 # ---------------------------------------------------------------------------------------------------------
@@ -68,6 +73,9 @@ def warm():
 
 def pool():
     warm()
+    import gc
+    gc.collect()
+    gc.freeze()                 # fewer copy-on-write faults in the forked children
     return multiprocessing.get_context('fork').Pool(WORKERS)
 
 
@@ -340,7 +348,7 @@ def kind(node) -> str:
     if op == 'or':
         return '|'.join(kind(x) for x in node[1])
     if op == 'deep':
-        return f'deep({kind(node[3])})'      # whatever the head; the depth at which it breaks depends on the interpreter's stack
+        return 'deep'        # whatever head, leaf and depth (the depth at which it breaks depends on the interpreter's stack)
     if op == 'h':
         return node[1] + '()'
     if op in ('is', 'hook'):
@@ -417,7 +425,7 @@ def settle(ex: Explore, candidates: dict, pl, max_shrinks: int):
     reported as it is; the others are shrunk (one representative per preliminary key) before being reported."""
     from ..impl import c11_hints as H
     from ..common import load_known
-    known = {k['key'] for k in load_known() if k.get('property') == 'C11'}
+    known = {k['key'] for k in load_known() if isinstance(k, dict) and k.get('property') == 'C11'}
     todo = []
     for pk, task in candidates.items():
         key0 = f'C11:{pk[0]}:{pk[1]}:{pk[2]}'
@@ -427,6 +435,7 @@ def settle(ex: Explore, candidates: dict, pl, max_shrinks: int):
                                                'objs': task[5], 'hint_readable': H.render(task[0])}))
         else:
             todo.append((pk, task))
+    todo.sort(key=lambda x: H.size(x[1][0]))                 # small hints first: they settle in a few child runs
     for (pk, task), sh in zip(todo[:max_shrinks], pl.map(_shrink_job, [t for _, t in todo[:max_shrinks]], chunksize=1) if todo else []):
         entry, label, k0 = pk
         if not sh['reproduced']:
@@ -446,7 +455,7 @@ def settle(ex: Explore, candidates: dict, pl, max_shrinks: int):
                                            'objs': task[5], 'hint_readable': H.render(task[0])}))
 
 
-def explore_hints(ex: Explore, rng: random.Random, fam: dict, n_hints: int, batch_size: int, pl, max_shrinks: int = 80):
+def explore_hints(ex: Explore, rng: random.Random, fam: dict, n_hints: int, batch_size: int, pl, max_shrinks: int = 400):
     from ..impl import c11_hints as H
     from ..impl import c11_run
     cats = collections.Counter()
@@ -515,7 +524,7 @@ def explore_hints(ex: Explore, rng: random.Random, fam: dict, n_hints: int, batc
     ex.extra['batches_timed_out_or_crashed(no verdict)'] = timeouts
     ex.extra['unbuildable_hints(CPython refused)'] = unbuildable
     ex.extra['failing_preliminary_keys'] = len(candidates)
-    ex.samples += [{'hint': H.render(n), 'category': c} for c, n in batches[0][:3]]
+    ex.samples += [{'hint': H.render(n), 'category': c} for c, n in (batches[-1][:3] + batches[0][:1])]
 
 
 # ---------------------------------------------------------------------------------------------------------
@@ -601,7 +610,7 @@ def gen_user(rng: random.Random) -> dict:
 def user_step(spec, good, oid):
     """the Step of Core/Roar.lean for one pith + how many exception objects user code creates on the way"""
     if spec[0] == 'plain':
-        return 'pass' if (good or False) else ['fail', 'none']
+        return 'pass' if good else ['fail', 'none']     # pith_obj: 1 / 'a' when good, 2.5 otherwise
     script = spec[1]
     a0 = script[0]
     if a0 == 'T':
@@ -610,11 +619,6 @@ def user_step(spec, good, oid):
         return ['raises', oid]
     a1 = script[min(1, len(script) - 1)]
     return ['fail', oid] if a1 == 'R' else ['fail', 'none']
-
-
-def plain_good(spec, good):
-    # pith_obj gives 1 / 'a' for good and 2.5 for bad; a good object of a plain hint passes
-    return good
 
 
 def user_jobs_run(scs):
@@ -693,7 +697,8 @@ def corpus():
         ['ga', N('dict'), [['v', 'list', []], N('int')]],
         ['deep', 'list', 300, N('int')], ['deep', 'list', 256, N('int')], ['deep', 'Union2', 100, N('int')], ['deep', 'list', 1500, N('int')],
         ['ga', ['v', 'int', 5], [N('int')]],
-        ['nt', ['v', 'int', 5]],
+        ['nt', ['v', 'int', 5]], ['nt', N('bool')], ['nt', N('EnumC')], ['sub', N('type'), [['s', 'int | nonexistent']]],
+        ['sub', N('GenericUser'), [['v', 'dict', []]]], ['sub', N('Union'), [['alias', N('Any')], N('int')]],
         ['ga', N('Union'), [N('int')]], ['ga', N('Annotated'), [N('int'), ['v', 'int', 0]]], ['ga', N('Tuple'), [N('int')]],
         ['t', [['s', '\x00']]], ['t', [N('int'), ['s', 'list[']]], N('method'), N('ProtoUser'), N('CUnhash'),
         ['sub', N('Annotated'), [N('int'), ['is', ['R']]]], ['sub', N('list'), [['hook', ['R']]]],
@@ -717,12 +722,12 @@ def explore_corpus(ex: Explore, fam, pl):
             ex.evaluations += 1
             for label, why in judge(rec, fam):
                 found.setdefault((rec['entry'], label, kind(node)), (node, rec['entry'], label, [], {k: sorted(v) for k, v in fam.items()}, job['objs']))
-    settle(ex, found, pl, 60)
+    settle(ex, found, pl, 400)
     ex.extra['corpus_hints'] = len(jobs)
 
 
 # ---------------------------------------------------------------------------------------------------------
-def explore(ck: Check, n_hints: int, n_user: int, n_cached: int, n_reraise: int, seed: int, max_shrinks: int = 80) -> Explore:
+def explore(ck: Check, n_hints: int, n_user: int, n_cached: int, n_reraise: int, seed: int, max_shrinks: int = 400) -> Explore:
     xt = xroar.extract()
     rng = random.Random(seed)
     ex = Explore(rule='evaluation = one call of a public entry point (or of an anchored function) with a generated object in hint '
@@ -746,6 +751,18 @@ def explore(ck: Check, n_hints: int, n_user: int, n_cached: int, n_reraise: int,
         phase('malformed-hint generator')
         tie_user(ex, rng, n_user, pl, fam)
         phase('user exceptions')
+    # a flood (a mutant breaking everything) is reported by its first distinct keys; listed findings are always kept
+    from ..common import load_known
+    known = {k['key'] for k in load_known() if isinstance(k, dict) and k.get('property') == 'C11'}
+    kept, fresh = [], set()
+    for f in ex.failures:
+        if f.key in known or f.key in fresh:
+            kept.append(f)
+        elif len(fresh) < MAX_NEW_KEYS:
+            fresh.add(f.key)
+            kept.append(f)
+    ex.extra['failures_before_cap'] = len(ex.failures)
+    ex.failures = kept
     return ex
 
 
